@@ -151,3 +151,57 @@ class T1(Task):
 
     def execute(self):
         CALLS.append(("execute", id(self)))
+
+
+def abstract_instance(root):
+    """Abstract view of a graph of runtime objects (used by Echo inside the job process): nodes keyed by
+    discovery order, values in the notation of XpmConfig.tla"""
+    nodes = {}
+    ids = {}
+
+    def val(v):
+        if v is None:
+            return ["none"]
+        if isinstance(v, bool):
+            return ["bool", v]
+        if isinstance(v, Enum):
+            return ["enum", v.name]
+        if isinstance(v, int):
+            return ["int", v]
+        if isinstance(v, float):
+            return ["float", repr(v)]
+        if isinstance(v, str):
+            return ["str", v]
+        if isinstance(v, Path):
+            return ["path", str(v)]
+        if isinstance(v, list):
+            return ["list", [val(x) for x in v]]
+        if isinstance(v, dict):
+            return ["dict", [[k, val(x)] for k, x in v.items()]]
+        return ["cfg", node(v)]
+
+    def node(o):
+        if id(o) in ids:
+            return ids[id(o)]
+        name = str(len(ids) + 1)
+        ids[id(o)] = name
+        t = o.__xpmtype__
+        rec = {"cls": [c for c in type(o).__mro__ if not c.__name__.endswith("XPMValue")][0].__name__, "vals": {}}
+        nodes[name] = rec
+        for a in t.arguments:
+            rec["vals"][a] = val(getattr(o, a, None))
+        return name
+
+    return {"root": node(root), "nodes": nodes}
+
+
+class Echo(Task):
+    """Writes what the task code observes in the job process: parameter values (whole graph) and tags"""
+
+    x: Param[Config]
+    n: Param[int] = 0
+    out: Meta[Path] = field(default_factory=PathGenerator("echo.json"))
+
+    def execute(self):
+        self.out.parent.mkdir(parents=True, exist_ok=True)
+        self.out.write_text(json.dumps({"graph": abstract_instance(self.x), "n": self.n, "tags": dict(self.__tags__), "calls": len(CALLS)}))
